@@ -19,6 +19,12 @@ func (e *Engine) keyTerm(st *State, k Value) *Term {
 		return x
 	case StrV:
 		return App("tq_skey", SInt, strTerm(x))
+	case StructV:
+		args := make([]*Term, len(x.F))
+		for i, f := range x.F {
+			args[i] = e.keyTerm(st, f)
+		}
+		return App(fmt.Sprintf("tq_key%d", len(args)), SInt, args...)
 	case OpaqueV:
 		return App("tq_rkey", SInt, x.Ref)
 	case IfaceV:
